@@ -114,13 +114,12 @@ Proof. exact does_var_have_ops_is_scan. Qed.
 Print Assumptions C11_does_var_have_ops_is_scan.
 
 (* the cursor construction fill_args_at_p (backward walk over the links with its early exit on the
-   "unfilled" counter) builds exactly the cursor a scan yields, at every position of every string whose
-   operators each act on at least one variable *)
+   "unfilled" counter) builds exactly the cursor a scan yields, at every position of every well-formed
+   string — with no side condition since fix 5d805dc (see C11_fill_args_zero_variable_case below) *)
 From QmcV Require Import Proofs.FillArgsProofs.
 
 Theorem C11_fill_args_at_p_is_scan_cursor : forall nv nb sl p,
   wf_slots nv nb sl -> p < length sl ->
-  (forall q o, nth_error sl q = Some (Some o) -> o_vars o <> []) ->
   fill_args_at_p (build nv nb sl) p = scan_cursor nv sl p.
 Proof. exact fill_args_refines. Qed.
 Print Assumptions C11_fill_args_at_p_is_scan_cursor.
@@ -129,27 +128,27 @@ Print Assumptions C11_fill_args_at_p_is_scan_cursor.
    ends in the structure a scan of the updated slots yields *)
 Theorem C11_mutate_subsection_refines : forall nv nb sl pstart decs,
   wf_slots nv nb sl -> Forall (wf_decision nv nb) decs ->
-  (forall q o, nth_error sl q = Some (Some o) -> o_vars o <> []) ->
   0 < length decs ->
   mutate_subsection (build nv nb sl) pstart decs
   = build nv nb (apply_decs (sl ++ repeat None (pstart + length decs - length sl)) pstart decs).
 Proof. exact mutate_subsection_refines. Qed.
 Print Assumptions C11_mutate_subsection_refines.
 
-(* the side condition cannot be dropped: with only a zero-variable operator stored, the code's
-   `unfilled == 0` shortcut leaves last_p unset although an operator precedes p (not reachable through
-   the samplers, which build cursors at p = 0 or through sub-variable cursors) *)
-Theorem C11_fill_args_zero_variable_refuted :
-  exists nv nb sl p, wf_slots nv nb sl /\ p < length sl
-    /\ fill_args_at_p (build nv nb sl) p <> scan_cursor nv sl p.
+(* history of a genuine defect: before fix 5d805dc the `unfilled == 0` shortcut returned last_p = None although
+   operators preceded p whenever no selected variable carried operators (sub-variable cursors on idle variables;
+   with SubvarAccess::All: only zero-variable operators stored).  The former refutation witness — one
+   zero-variable operator at slot 0, cursor at p = 1 — now agrees with the scan *)
+Theorem C11_fill_args_zero_variable_case :
+  let sl := [Some (mkOp [] 0 [] [] false); None] in
+  wf_slots 1 None sl /\ fill_args_at_p (build 1 None sl) 1 = scan_cursor 1 sl 1
+  /\ a_last_p (fill_args_at_p (build 1 None sl) 1) = Some 0.
 Proof.
-  exists 1, None, [Some (mkOp [] 0 [] [] false); None], 1.
-  split; [|split; [cbn; auto|vm_compute; discriminate]].
+  cbv zeta. split; [|split; vm_compute; reflexivity].
   intros q o Hq. destruct q as [|[|q]]; cbn in Hq; try discriminate.
   - inversion Hq; subst. repeat split; [constructor|intros v []].
   - destruct q; discriminate.
 Qed.
-Print Assumptions C11_fill_args_zero_variable_refuted.
+Print Assumptions C11_fill_args_zero_variable_case.
 
 (* non-vacuity: a string with a two-variable operator between single-site ones *)
 Example C11_ex_walk :
